@@ -238,9 +238,15 @@ def check_case(ctx, text, seed_key):
                 blackbird.dumps(instances[k])
             elif op == "graph-instance":
                 k = rng.randrange(len(instances))
-                to_DiGraph(instances[k])
+                Gk = to_DiGraph(instances[k])
                 if digest(instances[k]) != inst_digests[k]:
                     return ctx.violation("to_DiGraph-changes-program", "to_DiGraph changed the instance it converted", witness)
+                # the graph of an instance describes the instance, not the template it came from
+                for i_, o_ in enumerate(instances[k].operations):
+                    nd = Gk.nodes[i_] if i_ in Gk.nodes else None
+                    if nd is None or nd.get("name") != o_["op"] or tuple(nd.get("modes", ())) != tuple(o_["modes"]) or \
+                            json.dumps([content.jsonable(a) for a in (nd.get("args") or [])]) != json.dumps([content.jsonable(a) for a in o_.get("args", [])]):
+                        return ctx.violation("graph-of-instance-is-stale", "node %d of an instance's graph does not carry the instance's operation (%r vs %r)" % (i_, nd, o_), witness)
             elif op == "mutate-instance":
                 k = rng.randrange(len(instances))
                 label = mutate(rng, instances[k])
